@@ -1,13 +1,13 @@
 SPECIFICATION CSpec
 CHECK_DEADLOCK FALSE
 CONSTANTS
-  Kind = "udp"
+  Kind = "tcp"
   KeepAlive = FALSE
-  Retries = 2
+  Retries = 1
   T = 4
   CT = 40
   NCallers = 1
-  NReq = 3
+  NReq = 2
   Faults <- FaultsFull
   ConnOuts = {"ok"}
   MaxConnFail = 99
@@ -17,5 +17,5 @@ CONSTANTS
   Horizon = 4000
   Fx <- FxAll
   Assume = FALSE
-  CancelAts = {}
+  CancelAts = {2, 5, 6}
 INVARIANT CNoViolation
